@@ -1813,7 +1813,18 @@ impl<'a> Lowerer<'a> {
 pub fn parse_program(source: &str, file_path: PathBuf) -> (Program, Vec<ParserError>) {
     let tokens = crate::compiler::parser::tokenize(source);
     let preparsed = crate::compiler::parser::preparse(&tokens);
-    let (root, arena, tokens, errors) = crate::compiler::parser::parse_cst(tokens, &preparsed);
+    let (root, arena, tokens, mut errors) = crate::compiler::parser::parse_cst(tokens, &preparsed);
+    // The whole program is wrapped in a function of this name (see `add_global_context`) that the
+    // MIR generator and both back ends recognise by its name: user code cannot use the name.
+    let reserved = crate::utils::metadata::GLOBAL_LABEL;
+    errors.extend(tokens.iter().enumerate().filter_map(|(i, t)| {
+        (t.kind == TokenKind::Ident && source.get(t.start..t.end()) == Some(reserved)).then(|| {
+            ParserError::invalid_syntax(
+                i,
+                "`_mimium_global` is reserved for the entry function the compiler generates",
+            )
+        })
+    }));
     let lowerer = Lowerer::new(source, &tokens, &arena, file_path);
     let program = lowerer.lower_program(root);
     (program, errors)
